@@ -102,6 +102,14 @@ REG = {
         dict(name='c19::g2_affine_de_191', tier='thorough', t=2400, stubbing=True),
         dict(name='c19::g2_affine_de_193', tier='quick', t=3600, stubbing=True),
         dict(name='c19::g1_projective_de_and_ser', tier='quick', t=2400, stubbing=True),
+        dict(name='c19::g1_projective_de_47', tier='quick', t=2400, stubbing=True),
+        dict(name='c19::g1_projective_de_95', tier='quick', t=2400, stubbing=True),
+        dict(name='c19::g1_projective_de_96', tier='thorough', t=2400, stubbing=True),
+        dict(name='c19::g2_projective_de_95', tier='thorough', t=2400, stubbing=True),
+        dict(name='c19::g2_projective_de_97', tier='thorough', t=2400, stubbing=True),
+        dict(name='c19::g2_projective_de_191', tier='quick', t=3600, stubbing=True),
+        dict(name='c19::g2_projective_de_193', tier='quick', t=3600, stubbing=True),
+        dict(name='c19::serialize_all_point_types', tier='quick', t=3600, stubbing=True),
         dict(name='c19::fr_de_0', tier='quick', t=1200, stubbing=True),
         dict(name='c19::fr_de_31', tier='quick', t=1200, stubbing=True),
         dict(name='c19::fr_de_32', tier='quick', t=1200, stubbing=True),
